@@ -76,6 +76,7 @@ def ops_for(nslots):
             ('new', i, None), ('new-attrs', i, None),
             ('parse', i, 0), ('parse', i, 1), ('parse', i, 2),
             ('parse', i, 3), ('mut-unknown-options', i, None),
+            ('mut-meta-intkeys', i, None),
             ('add-change', i, None), ('add-change-attrs', i, None),
             ('add-file', i, None), ('add-file-big', i, None),
             ('mut-meta', i, None), ('mut-meta-nested', i, None),
@@ -145,6 +146,12 @@ def apply(world, op):
         t.meta['x'] = 'y'
     elif name == 'mut-meta-nested':
         t.meta['k'].append('w')
+    elif name == 'mut-meta-intkeys':
+        # keys json writes as strings ("1", "2.5"): whatever serialising
+        # does with them, the tree keeps the caller's objects
+        t.meta['r'] = {1: 'x', 2: ['y', {3: None}]}
+        if _last_file(t) is not None:
+            _last_file(t).meta['f'] = {2.5: 'z'}
     elif name == 'mut-options':
         t.options['encoding'] = 'latin-1'
         t.options['custom'] = 'c'
@@ -251,6 +258,20 @@ def check_step(hist, op, g0):
         kind = obs[0]
         if kind == 'bytes' and obs[1] != obs[2]:
             v.append(('to-bytes-twice-differs', 'history %r' % (hist,)))
+        elif kind == 'bytes':
+            # differential: a tree rebuilt from scratch in the same state
+            # serialises to the same bytes (no stale cache of an earlier
+            # serialisation survives in-place edits)
+            try:
+                from mc.domsnap import tree_from_snap
+                fresh_t = tree_from_snap(snap(w.trees[i]))
+                if fsnap(fresh_t) == fsnap(w.trees[i]) and \
+                        fresh_t.to_bytes() != obs[1]:
+                    v.append(('to-bytes-differs-from-fresh-tree',
+                              'a tree rebuilt in the same state serialises '
+                              'differently\nhistory %r' % (hist,)))
+            except Exception:
+                pass
         elif kind == 'shared' and obs[1] != obs[2]:
             v.append(('shared-writer-differs-from-fresh',
                       'a reused DiffXDOMWriter produced %r, a fresh one %r\n'
